@@ -236,4 +236,304 @@ theorem fromLines_fail_getLast (ls : List Bytes) :
 
 end Fastq
 
+/-! ## BED -/
+
+namespace Bed
+
+
+theorem optInt_range {s : Bytes} {v : Int} (h : optInt s = some v) : inRange v := by
+  unfold optInt at h
+  split at h
+  · cases h; decide
+  · exact atoi_range h
+
+theorem mapM_atoi_range : ∀ (fs : List Bytes) (l : List Int), fs.mapM atoi = some l →
+    ∀ i ∈ l, inRange i
+  | [], l, h => by simp at h; subst h; simp
+  | f :: fs, l, h => by
+    rw [List.mapM_cons] at h
+    cases ha : atoi f with
+    | none => simp [ha] at h
+    | some a =>
+      cases hr : fs.mapM atoi with
+      | none => simp [ha, hr] at h
+      | some r =>
+        simp [ha, hr] at h
+        subst h
+        intro i hi
+        rcases List.mem_cons.mp hi with rfl | hi
+        · exact atoi_range ha
+        · exact mapM_atoi_range fs r hr i hi
+
+theorem parseIntList_range {s : Bytes} {l : List Int} (h : parseIntList s = some l) :
+    ∀ i ∈ l, inRange i := by
+  unfold parseIntList at h
+  split at h
+  · cases h; simp
+  · exact mapM_atoi_range _ _ h
+
+/-- Everything the parser guarantees about an accepted record. -/
+theorem parseLine_some {fs : List Bytes} {b : Bed} (h : parseLine fs = some b) :
+    3 ≤ fs.length ∧ fs.length ≤ 12 ∧ b.n = fs.length ∧ b.chrom = fs[0]?.getD [] ∧
+    validStrand b.strand = true ∧
+    inRange b.chromStart ∧ inRange b.chromEnd ∧ inRange b.score ∧
+    inRange b.thickStart ∧ inRange b.thickEnd ∧ inRange b.blockCount ∧
+    (∀ i ∈ b.blockSizes, inRange i) ∧ (∀ i ∈ b.blockStarts, inRange i) ∧
+    (b.blockSizes.length : Int) = b.blockCount ∧ (b.blockStarts.length : Int) = b.blockCount ∧
+    truncate fs.length b = b := by
+  unfold parseLine at h
+  simp only at h
+  split at h
+  · cases h
+  · rename_i hlen
+    split at h
+    · rename_i cs ce sc ts te rgb bc bs bst h1 h2 h4 h6 h7 h8 h9 h10 h11
+      split at h
+      · cases h
+      · rename_i hstrand
+        split at h
+        · cases h
+        · rename_i hbs
+          split at h
+          · cases h
+          · rename_i hbst
+            cases h
+            have hf : ∀ i, fs.length ≤ i → fs[i]?.getD [] = [] := by
+              intro i hi; rw [List.getElem?_eq_none hi]; rfl
+            have hstrand' : validStrand (fs[5]?.getD []) = true := by simpa using hstrand
+            have hbs' : (bs.length : Int) = bc := by simpa using hbs
+            have hbst' : (bst.length : Int) = bc := by simpa using hbst
+            refine ⟨by omega, by omega, rfl, rfl, hstrand', atoi_range h1, atoi_range h2,
+              optInt_range h4, optInt_range h6, optInt_range h7, optInt_range h9,
+              parseIntList_range h10, parseIntList_range h11, hbs', hbst', ?_⟩
+            simp only [truncate]
+            have e3 : (if fs.length > 3 then fs[3]?.getD [] else []) = fs[3]?.getD [] := by
+              split
+              · rfl
+              · exact (hf 3 (by omega)).symm
+            have e4 : (if fs.length > 4 then sc else 0) = sc := by
+              split
+              · rfl
+              · rw [hf 4 (by omega)] at h4; cases h4; rfl
+            have e5 : (if fs.length > 5 then fs[5]?.getD [] else []) = fs[5]?.getD [] := by
+              split
+              · rfl
+              · exact (hf 5 (by omega)).symm
+            have e6 : (if fs.length > 6 then ts else 0) = ts := by
+              split
+              · rfl
+              · rw [hf 6 (by omega)] at h6; cases h6; rfl
+            have e7 : (if fs.length > 7 then te else 0) = te := by
+              split
+              · rfl
+              · rw [hf 7 (by omega)] at h7; cases h7; rfl
+            have e8 : (if fs.length > 8 then rgb else (0, 0, 0)) = rgb := by
+              split
+              · rfl
+              · rw [hf 8 (by omega)] at h8; cases h8; rfl
+            have e9 : (if fs.length > 9 then bc else 0) = bc := by
+              split
+              · rfl
+              · rw [hf 9 (by omega)] at h9; cases h9; rfl
+            have e10 : (if fs.length > 10 then bs else []) = bs := by
+              split
+              · rfl
+              · rw [hf 10 (by omega)] at h10; cases h10; rfl
+            have e11 : (if fs.length > 11 then bst else []) = bst := by
+              split
+              · rfl
+              · rw [hf 11 (by omega)] at h11; cases h11; rfl
+            rw [e3, e4, e5, e6, e7, e8, e9, e10, e11]
+    · cases h
+
+theorem fromLines_ok_mem (e : Ending) (ls : List Bytes) : ∀ (nf : Option Nat) (b : Bed),
+    Item.ok b ∈ fromLines e nf ls →
+    ∃ l ∈ ls, isSkipped l = false ∧ parseLine (splitOn TAB l) = some b := by
+  induction ls with
+  | nil => intro nf b h; cases e <;> simp [fromLines, endItems] at h
+  | cons l rest ih =>
+    intro nf b h
+    simp only [fromLines] at h
+    split at h
+    · obtain ⟨m, hm, h2⟩ := ih nf b h
+      exact ⟨m, List.mem_cons_of_mem _ hm, h2⟩
+    · rename_i hsk
+      split at h
+      · simp at h
+      · split at h
+        · simp at h
+        · rename_i b' hp
+          rcases List.mem_cons.mp h with h | h
+          · cases h
+            exact ⟨l, by simp, by simpa using hsk, hp⟩
+          · obtain ⟨m, hm, h2⟩ := ih _ b h
+            exact ⟨m, List.mem_cons_of_mem _ hm, h2⟩
+
+/-- A record accepted by the reader, whose two free-text fields are free of TAB/CR/LF,
+is in the domain of the round-trip theorem, with `N` = its own field count, and has no
+junk beyond its `N` fields. -/
+theorem accepted_WF (e : Ending) (x : Bytes) (b : Bed) (hm : Item.ok b ∈ decodeSrc e x)
+    (hc : textOK b.chrom) (hn : textOK b.name) :
+    ∃ N : Nat, WF N b ∧ truncate N b = b := by
+  obtain ⟨l, _, hsk, hp⟩ := fromLines_ok_mem e _ none b hm
+  obtain ⟨h3, h12, hN, hchrom, hstrand, hcs, hce, hsc, hts, hte, hbc, hsz, hst, hbs, hbst, htr⟩ :=
+    parseLine_some hp
+  refine ⟨(splitOn TAB l).length, ⟨h3, h12, hN, hc, ?_, hn, hstrand, hcs, hce, hsc, hts, hte, hbc,
+    hsz, hst, ?_, ?_⟩, htr⟩
+  · rw [hchrom]
+    cases l with
+    | nil => simp [isSkipped] at hsk
+    | cons c r =>
+      rw [splitOn_head_head]
+      split
+      · simp
+      · intro h35
+        have : c = 35 := by simpa using h35
+        subst this
+        simp [isSkipped] at hsk
+  · rw [htr]; exact hbs
+  · rw [htr]; exact hbst
+
+theorem fromLines_fail_getLast (ls : List Bytes) : ∀ nf,
+    (fromLines .fail nf ls).getLast? = some Item.err := by
+  induction ls with
+  | nil => intro nf; rfl
+  | cons l rest ih =>
+    intro nf
+    simp only [fromLines]
+    split
+    · exact ih nf
+    · split
+      · rfl
+      · split
+        · rfl
+        · exact getLast?_cons_of_some (ih _)
+
+/-- The file the writer produces for well-formed records is the LF file of their lines. -/
+theorem encode_file_eq (N : Nat) (bs : List Bed) (h : ∀ b ∈ bs, WF N b) :
+    (bs.map fun b => (encode b).getD []).flatten =
+      lfFile (bs.map fun b => (encodeLine b).getD []) := by
+  unfold lfFile
+  rw [List.map_map]
+  congr 1
+  apply List.map_congr_left
+  intro b hb
+  obtain ⟨line, h1, h2, _⟩ := encode_one_line N b (h b hb)
+  simp [h1, h2, LF]
+
+theorem decode_crlf (N : Nat) (bs : List Bed) (h : ∀ b ∈ bs, WF N b) :
+    decode (crlf (bs.map fun b => (encode b).getD []).flatten) =
+      bs.map (fun b => Item.ok (truncate N b)) := by
+  rw [encode_file_eq N bs h, crlf_lfFile]
+  · have := file_roundtrip_crlf N bs h
+    simpa [crlfFile, List.map_map, Function.comp_def] using this
+  · intro l hl
+    obtain ⟨b, hb, rfl⟩ := List.mem_map.mp hl
+    obtain ⟨line, _, h2, h3, _⟩ := encode_one_line N b (h b hb)
+    rw [h2]
+    intro hm
+    exact (h3 10 hm).1 rfl
+
+/-! ### The `Write` calls of `BED.Write` -/
+
+
+/-- The `Fprintf` calls for a block list: the first element bare, every further one
+preceded by a comma (each its own call). -/
+def listCalls : List Int → List Bytes
+  | [] => []
+  | x :: xs => itoa x :: xs.map (fun y => COMMA :: itoa y)
+
+/-- The sequence of `Write` calls `BED.Write` makes when `3 ≤ N ≤ 12` (one per `Fprintf`,
+/repo/formats/bed/bed.go). -/
+def writeCalls (b : Bed) : List Bytes :=
+  [b.chrom ++ TAB :: itoa b.chromStart ++ TAB :: itoa b.chromEnd] ++
+  (if b.n > 3 then [TAB :: b.name] else []) ++
+  (if b.n > 4 then [TAB :: itoa b.score] else []) ++
+  (if b.n > 5 then [TAB :: b.strand] else []) ++
+  (if b.n > 6 then [TAB :: itoa b.thickStart] else []) ++
+  (if b.n > 7 then [TAB :: itoa b.thickEnd] else []) ++
+  (if b.n > 8 then [TAB :: (natDigits b.rgb.1.toNat ++ COMMA :: natDigits b.rgb.2.1.toNat ++
+      COMMA :: natDigits b.rgb.2.2.toNat)] else []) ++
+  (if b.n > 9 then [TAB :: itoa b.blockCount] else []) ++
+  (if b.n > 10 then [TAB] :: listCalls b.blockSizes else []) ++
+  (if b.n > 11 then [TAB] :: listCalls b.blockStarts else []) ++
+  [[LF]]
+
+theorem listCalls_flatten (l : List Int) : (listCalls l).flatten = intList l := by
+  cases l with
+  | nil => rfl
+  | cons x xs =>
+    simp only [listCalls, intList, List.map_cons, joinWith_cons, List.flatten_cons, List.map_map]
+    rfl
+
+theorem writeCalls_flatten (b : Bed) (t : Bytes) (h : encode b = some t) :
+    (writeCalls b).flatten = t := by
+  unfold encode encodeLine at h
+  split at h
+  · simp at h
+  · rename_i hr
+    simp at h
+    subst h
+    have hn : b.n = 3 ∨ b.n = 4 ∨ b.n = 5 ∨ b.n = 6 ∨ b.n = 7 ∨ b.n = 8 ∨ b.n = 9 ∨ b.n = 10 ∨
+        b.n = 11 ∨ b.n = 12 := by omega
+    rcases hn with hn | hn | hn | hn | hn | hn | hn | hn | hn | hn <;>
+      simp [writeCalls, hn, allFields, joinWith, listCalls_flatten]
+
+end Bed
+
+/-! ## SAM (C06 and the failing source; the fixed point is in `CrossSam.lean`) -/
+
+namespace Sam
+
+theorem decode_crlf (pf : Bytes → Option Bytes) (hs : List Bytes) (rs : List Sam)
+    (hh : ∀ h ∈ hs, hdrOK h) (hr : ∀ s ∈ rs, WF pf s) :
+    decodeHeader pf (crlf ((hs ++ rs.map encodeLine).map (· ++ [10])).flatten) =
+      decodeHeader pf ((hs ++ rs.map encodeLine).map (· ++ [10])).flatten ∧
+    decode pf (crlf ((hs ++ rs.map encodeLine).map (· ++ [10])).flatten) =
+      decode pf ((hs ++ rs.map encodeLine).map (· ++ [10])).flatten := by
+  have hlf : ∀ l ∈ hs ++ rs.map encodeLine, (10 : UInt8) ∉ l :=
+    fun l hl => (samLines_plain pf hs rs hh hr l hl).1
+  have e : crlf ((hs ++ rs.map encodeLine).map (· ++ [10])).flatten =
+      ((hs ++ rs.map encodeLine).map (· ++ [13, 10])).flatten := crlf_lfFile _ hlf
+  rw [e]
+  obtain ⟨a1, a2⟩ := file_roundtrip pf hs rs hh hr
+  obtain ⟨b1, b2⟩ := file_roundtrip_crlf pf hs rs hh hr
+  exact ⟨b1.trans a1.symm, b2.trans a2.symm⟩
+
+theorem header_fail_getLast (pf : Bytes → Option Bytes) (x : Bytes) :
+    (decodeHeaderSrc pf .fail x).getLast? = some Item.err := by
+  simp [decodeHeaderSrc, endItems]
+
+theorem fail_getLast (pf : Bytes → Option Bytes) (x : Bytes) :
+    (decodeSrc pf .fail x).getLast? = some Item.err := by
+  simp [decodeSrc, decodeHeaderSrc, endItems, dropHeaders_append, dropHeaders]
+
+end Sam
+
+/-! ## Newick (C06; the failing source and the fixed point are in `CrossNewick.lean`) -/
+
+namespace Newick
+
+/-- Trees each followed by the fixed whitespace string `w` are read back. -/
+theorem decode_sep (qs : Bytes) (pd : Bytes → Option Dist) (h : QS_OK qs) (w : Bytes)
+    (hw : ∀ b ∈ w, isWS b = true) (ts : List Tree) (hd : ∀ t ∈ ts, t.AllDist (DistOK pd)) :
+    decode pd (ts.flatMap fun t => write qs t ++ w) = ts.map Item.ok := by
+  have := trees_roundtrip qs pd h [] (ts.map fun t => (t, w)) (by simp)
+    (by simpa using hd) (by
+      intro p hp
+      obtain ⟨t, _, rfl⟩ := List.mem_map.mp hp
+      exact hw)
+  simpa [List.flatMap_map, List.map_map, Function.comp_def] using this
+
+/-- The CRLF form of the LF-separated trees, when no tree text contains an LF. -/
+theorem crlf_trees (qs : Bytes) (ts : List Tree) (h : ∀ t ∈ ts, (10 : UInt8) ∉ write qs t) :
+    crlf (ts.flatMap fun t => write qs t ++ [10]) = ts.flatMap fun t => write qs t ++ [13, 10] := by
+  have := crlf_lfFile (ts.map (write qs)) (by
+    intro l hl
+    obtain ⟨t, ht, rfl⟩ := List.mem_map.mp hl
+    exact h t ht)
+  simpa [lfFile, crlfFile, List.flatMap_def, List.map_map, Function.comp_def] using this
+
+end Newick
+
 end Bio
